@@ -667,6 +667,22 @@ class KlongInterpreter():
         """
         return self.eval(KGCall(x.a, x.args, x.arity) if isinstance(x, KGFn) else x)
 
+    def _compiled_args(self, var_syms):
+        """
+        Fetch the variables a compiled expression reads, or None if one of them is
+        no longer a number or an array: the compiler only accepts those operand
+        kinds, and the generated Python differs from Klong on others (e.g. "ab"*2).
+        """
+        args = []
+        ndarray = self._backend.np.ndarray
+        for s in var_syms:
+            v = self._context[s]
+            tv = type(v)
+            if not (tv is int or tv is float or isinstance(v, ndarray)):
+                return None
+            args.append(v)
+        return args
+
     def eval(self, x):
         """
 
@@ -696,8 +712,9 @@ class KlongInterpreter():
                     if compiled and compiled is not False:
                         fn, var_syms = compiled
                         try:
-                            args = [self._context[s] for s in var_syms]
-                            return fn(*args)
+                            args = self._compiled_args(var_syms)
+                            if args is not None:
+                                return fn(*args)
                         except Exception:
                             pass
                 f = self._get_op_fn(x.a.a, x.a.arity)
@@ -714,8 +731,9 @@ class KlongInterpreter():
                 if compiled and compiled is not False:
                     fn, var_syms = compiled
                     try:
-                        args = [self._context[s] for s in var_syms]
-                        return fn(*args)
+                        args = self._compiled_args(var_syms)
+                        if args is not None:
+                            return fn(*args)
                     except Exception:
                         pass
                 return chain_adverbs(self, x.a)()
@@ -756,8 +774,9 @@ class KlongInterpreter():
             if compiled and compiled is not False:
                 fn, var_syms = compiled
                 try:
-                    args = [self._context[s] for s in var_syms]
-                    return fn(*args)
+                    args = self._compiled_args(var_syms)
+                    if args is not None:
+                        return fn(*args)
                 except Exception:
                     pass  # fall through to interpreter
 
